@@ -256,11 +256,11 @@ class CSVLookupTableMixin(OptimizationProblem):
 
         # Get curve fitting options from curvefit_options.ini file
         ini_path = os.path.join(self.__lookup_table_folder, "curvefit_options.ini")
-        try:
-            ini_config = configparser.RawConfigParser()
-            ini_config.read(ini_path)
+        ini_config = configparser.RawConfigParser()
+        # read() does not raise for a missing file; it returns the list of files it could read
+        if ini_config.read(ini_path):
             no_curvefit_options = False
-        except IOError:
+        else:
             logger.info(
                 "CSVLookupTableMixin: No curvefit_options.ini file found. Using default values."
             )
